@@ -173,8 +173,18 @@ func (s *State) learn(c *Term, val bool) {
 	}
 }
 
-// Simp simplifies a boolean term under the literal knowledge of the state (one level).
+// Simp simplifies a boolean term under the literal knowledge of the state (DAG-memoised).
 func (s *State) Simp(c *Term) *Term {
+	if c.IsConst() {
+		return c
+	}
+	if len(s.known) == 0 {
+		return c
+	}
+	return s.simp(c, map[int]*Term{})
+}
+
+func (s *State) simp(c *Term, memo map[int]*Term) *Term {
 	if c.IsConst() {
 		return c
 	}
@@ -182,22 +192,32 @@ func (s *State) Simp(c *Term) *Term {
 		return BoolC(v)
 	}
 	switch c.Op {
+	case ONot, OAnd, OOr:
+	default:
+		return c
+	}
+	if r, ok := memo[c.ID]; ok {
+		return r
+	}
+	var r *Term
+	switch c.Op {
 	case ONot:
-		return Not(s.Simp(c.Args[0]))
+		r = Not(s.simp(c.Args[0], memo))
 	case OAnd:
 		out := make([]*Term, len(c.Args))
 		for i, a := range c.Args {
-			out[i] = s.Simp(a)
+			out[i] = s.simp(a, memo)
 		}
-		return And(out...)
+		r = And(out...)
 	case OOr:
 		out := make([]*Term, len(c.Args))
 		for i, a := range c.Args {
-			out[i] = s.Simp(a)
+			out[i] = s.simp(a, memo)
 		}
-		return Or(out...)
+		r = Or(out...)
 	}
-	return c
+	memo[c.ID] = r
+	return r
 }
 
 // Conc returns the constant a term is known to equal, if any.
